@@ -54,9 +54,13 @@ type unit struct {
 	start int
 }
 
+// add appends one statement (possibly spanning several lines) and returns the line it STARTS on.
 func (u *unit) add(indent, s string) int {
-	u.lines = append(u.lines, indent+s)
-	return len(u.lines)
+	first := len(u.lines) + 1
+	for _, l := range strings.Split(s, "\n") {
+		u.lines = append(u.lines, indent+l)
+	}
+	return first
 }
 
 type gen struct {
@@ -86,6 +90,20 @@ func (g *gen) filler(k int, u *unit, ind string) {
 		u.add(ind, "  2")
 		u.add(ind, "]")
 	}
+	if n >= 3 {
+		// wide frame: more than 255 entries in the function's value pool (the 16 bit instruction forms follow)
+		for i := 0; i < 135; i++ {
+			u.add(ind, fmt.Sprintf("w%d_%d := \"w%d_%d\".length", k, i, k, i))
+		}
+	}
+}
+
+// multiline spreads the argument list of a call over two lines in wide frames (the frame's line is where the call starts)
+func (g *gen) multiline(k int, ind, expr string) string {
+	if g.fillers[k] >= 3 && strings.HasSuffix(expr, "()") {
+		return strings.TrimSuffix(expr, "()") + "(\n" + "    )"
+	}
+	return expr
 }
 
 // Constructs around a call site / throw: the line tables of jumps, catch entries and continuation lines.
@@ -95,6 +113,7 @@ func (g *gen) wrap(k int) string { return wraps[(g.wrapOff+k)%len(wraps)] }
 
 // call emits `v := expr` inside the construct chosen for frame k and returns the line of expr.
 func (g *gen) call(k int, u *unit, ind, v, expr string) int {
+	expr = g.multiline(k, ind, expr)
 	decl := func() { u.add(ind, fmt.Sprintf("var %s: Int = 0", v)) }
 	var ln int
 	switch g.wrap(k) {
@@ -515,8 +534,16 @@ func fillerPatterns(d int, full bool) [][]int {
 		return out
 	}
 	// covering set: constant vectors and three rotations of (0,1,2,…): every frame sees every count, every adjacent
-	// pair of frames sees different counts in both orders
+	// pair of frames sees different counts in both orders; plus the all-wide vector (count 3: > 255 pool entries and
+	// a call spread over two lines in every frame)
 	var out [][]int
+	{
+		v := make([]int, n)
+		for i := range v {
+			v[i] = 3
+		}
+		out = append(out, v)
+	}
 	for c := 0; c <= 2; c++ {
 		v := make([]int, n)
 		for i := range v {
@@ -561,7 +588,7 @@ func main() {
 		Prop:  "C32",
 		Level: "exploration",
 		Rule: "every call chain of depth ≤ 3 (quick) / ≤ 4 (thorough) over the frame kinds {method, instance method, module method, closure called with .()/.call, closure passed to the native ArrayList#map, generator consumed by for…in, async function awaited} " +
-			"with an uncaught throw at the leaf; each chain × filler patterns (0–2 filler statements — a local declaration, a four-line literal — before every call site and the throw: a covering set of ≤ 9 vectors; thorough: all 3^(d+1) vectors for depth ≤ 2) × 2 forms " +
+			"with an uncaught throw at the leaf; each chain × filler patterns (0–2 filler statements — a local declaration, a four-line literal — before every call site and the throw: a covering set of ≤ 9 vectors plus one all-wide vector (135 extra statements per frame, so that the 16 bit instruction forms are used, and calls spread over two lines); thorough: all 3^(d+1) vectors for depth ≤ 2) × 2 forms " +
 			"(symbol thrown, .(), await | Error object thrown, .call(), await_sync); the call site of frame k (and the throw) is placed inside the construct number (pattern index + k) mod 7 of {plain, if, while, do/finally, continuation line, do/catch, switch}; one program per combination; a program is non-trivial when its chain crosses a closure, native, generator or promise boundary or has depth ≥ 2",
 		Assume:           []string{"calls are never in tail position", "frames whose file is not the program file (native frames) are ignored", "names of closure frames and of the top-level frame are not asserted"},
 		CaseTimeout:      3 * time.Minute,
